@@ -75,6 +75,7 @@ def scenarios():
     add("encoding_8bit", {"encodingOk": 0}, gdl_bytes=b"\xe9" + GOOD.encode())
     add("gdlpp_missing", {"ppOk": 0}, gdlpp="/nonexistent/gdlpp")
     add("gdlpp_fails", {"ppOk": 0}, gdlpp="/bin/false")
+    add("fork_fails", {"ppOk": 0}, fork_fails=True)
     add("pp_error_directive", {"ppOk": 0}, gdl=GOOD.replace("table(glyph)", "#error stop\ntable(glyph)", 1))
     add("pp_stray_endif", {"ppOk": 0}, gdl=GOOD.replace("table(glyph)", "#endif\ntable(glyph)", 1))
     add("pp_unterminated_if", {"ppOk": 0}, gdl=GOOD.replace("table(glyph)", "#if 1\ntable(glyph)", 1))
@@ -234,6 +235,10 @@ def run_scenario(build, work, name, setup, pre_existing_out=None):
     log = os.path.join(d, "..", name + ".strace")
     cmd = ["strace", "-f", "-qq", "-e", "trace=openat,unlink,unlinkat,rename,renameat,renameat2,execve", "-o", log,
            build["grcompiler"]] + args
+    if setup.get("fork_fails"):
+        # the system cannot start another process: every fork / clone of the compiler fails with EAGAIN
+        cmd = ["strace", "-f", "-qq", "-e", "trace=openat,unlink,unlinkat,rename,renameat,renameat2,execve,clone,clone3,fork,vfork",
+               "-e", "inject=clone,clone3,fork,vfork:error=EAGAIN", "-o", log, build["grcompiler"]] + args
     r = subprocess.run(cmd, cwd=d, env=env, capture_output=True, timeout=120)
     after = snapshot(d)
     tmp_after = set(glob.glob("/tmp/gdl??????"))
@@ -244,6 +249,9 @@ def run_scenario(build, work, name, setup, pre_existing_out=None):
     if "/" not in errpath:
         errpath = os.path.join(os.path.dirname(gdlname), errpath)   # a bare name is placed next to the GDL file
     for line in open(log, errors="replace"):
+        if setup.get("fork_fails") and re.match(r"^\d+\s+(clone3?|v?fork)\(.*= -1 EAGAIN", line):
+            ops.append("execPP")      # the attempt to run the pre-processor (which fails, as in the scenarios where gdlpp cannot be run)
+            continue
         m = EXEC_RE.match(line)
         if m:
             if main_pid is None:
